@@ -35,6 +35,24 @@ def plan(tier, seed, kf_ids):
             for f in fr:
                 for form in ((0,) if q else (0, 2, 4)):
                     jobs.append(A.div("c01", s, w, f, form, timeout=1200 if q else 5400))
+    # 64- and 128-bit division: every dividend against constant divisors (the general divider is out of reach of SAT)
+    for s, w in c.FAMILIES:
+        if w < 64:
+            continue
+        for f in ([0, w // 2, w] if q else [0, 1, w // 2, w - 1, w]):
+            ks = [(0, False), (w // 2 - 1, False)] + ([(0, True), (w - 2, True)] if s == "I" else [(w - 1, False)])
+            for (k, neg) in ks:
+                jobs.append(A.div_pow2("c01", s, w, f, k, neg, timeout=1200))
+        # measured: 3 and 10: 1-25 s; 2^32+3 (64 bit): 20-30 s; 2^64+3 (128 bit, two-limb divisor = the main loop of
+        # Knuth D in wide_div.rs): 115-145 s; divisors near 2^(W-1) or with many set bits: no verdict in 20 min
+        small = [3, 10]
+        two_limb = (1 << (w // 2)) + 3
+        for f in ([w // 2] if q else [1, w // 2, w - 1]):
+            for neg in ((False, True) if s == "I" else (False,)):
+                for d in small:
+                    jobs.append(A.div_const("c01", s, w, f, d, neg, 0, timeout=900))
+                if not q or (not neg):
+                    jobs.append(A.div_const("c01", s, w, f, two_limb, neg, 0 if q else 2, timeout=1800))
     # 128-bit kernels on operand families
     for s in ("U", "I"):
         fr = [1, 64, 127, 128] if q else [1, 2, 63, 64, 65, 126, 127, 128]
@@ -55,8 +73,10 @@ def plan(tier, seed, kf_ids):
         "bounds": "mul: all operand pairs, widths 8..32 at fractional counts {0,1,2,W/2,W-2,W-1,W}+seeded, width 64 at W/2 "
                   "(quick) or {0,1,32,63,64} (thorough); div: width 8 every fractional count incl. wrapped value on overflow, "
                   "width 16 boundary counts, width 32: unsigned at 16 (quick) / both signs at {0,1,16,31,32} (thorough); 128-bit mul: operand "
-                  "families of 2^16 x 2^16 values (8 symbolic bits at the top/bottom of each 64-bit limb)",
-        "outside": ["the Knuth-D routine of wide_div.rs (128-bit quotient digits): abstracted in Engine M, out of reach of the SAT back end",
+                  "families of 2^16 x 2^16 values (8 symbolic bits at the top/bottom of each 64-bit limb); 64/128-bit div: every dividend x constant "
+                  "divisors {+-1, +-2^k, 3, 10, 2^(W/2)+3} ulp at fractional counts {0, W/2, W} (quick)",
+        "outside": ["64/128-bit division with a SYMBOLIC divisor (Knuth D of wide_div.rs is abstracted in Engine M; through Kani every dividend is "
+                    "decided against constant divisors only: +-1, +-2^k, 3, 10, 2^(W/2)+3)",
                     "the primitive integer multiply/divide instructions (trusted)",
                     "wrapped value of an overflowing division for widths >= 16", "fractional counts not instantiated"],
         "assumptions": ["divisor non-zero", "plain operators only called when the result is representable"],
